@@ -121,8 +121,9 @@ def mac0_result(key, kid, aad, payload, protected=None):
     return C.dumps([protected, {HDR_KID: kid}, None, tag])
 
 
-def add_bib(bundle, targets, key, kid, source, scope=None, num=None, protected_params=None):
-    '''Return a copy of the bundle with an independently produced BIB.'''
+def add_bib(bundle, targets, key, kid, source, scope=None, num=None, protected_params=None, per_target=None):
+    '''Return a copy of the bundle with an independently produced BIB.
+    per_target: optional list of (key, kid written into the result) per target.'''
     blocks = [dict(b) for b in bundle['blocks']]
     used = {b['num'] for b in blocks}
     if num is None:
@@ -137,9 +138,10 @@ def add_bib(bundle, targets, key, kid, source, scope=None, num=None, protected_p
     asb = dict(targets=list(targets), context=3, flags=1 if params else 0, source=source, params=params, results=[])
     sec_blk = dict(type=B.T_BIB, num=num, flags=0, crc_type=0, data=b'')
     out = dict(primary=dict(bundle['primary']), blocks=[sec_blk] + blocks)
-    for tnum in targets:
+    for (k, tnum) in enumerate(targets):
         aad = external_aad(out, sec_blk, asb, tnum)
         tgt = [b for b in blocks if b['num'] == tnum][0]
-        asb['results'].append([(COSE_MAC0, mac0_result(key, kid, aad, tgt['data']))])
+        (tkey, tkid) = per_target[k] if per_target else (key, kid)
+        asb['results'].append([(COSE_MAC0, mac0_result(tkey, tkid, aad, tgt['data']))])
     sec_blk['data'] = B.enc_asb(asb)
     return out
